@@ -16,6 +16,10 @@ CHECKS = {
    technique="bounded-exhaustive enumeration of accepted programs (fragments F1-F10, kind-agnostic space, annotation matrix, fragments x base documents) through the real pipeline; independent validator on the emitted YAML plus typed round trip",
    text="Every document emitted for the explored program spaces (quick: 73 k documents out of 230 k programs) is checked by a validator that knows nothing about the compiler: all $refs resolve inside the document, path-template variables and required path parameters agree per operation, response keys are default / 100-599 / 1XX-5XX, operationIds are unique, and the YAML text parses back to an equal openapiv3 value that re-serialises byte-identically.",
    note="Paths with repeated variable names and operationIds written by the program itself are excluded as the property states. Base documents only carry references outside components.schemas. Trusts serde_yaml and openapiv3 for the round trip."),
+ "C04": dict(engine="tokspace", design="§4 C04",
+   technique="exhaustive enumeration of texts (all token sequences <= L over the 54-token alphabet and reduced grammar alphabets, all character strings <= n over a lexer-corner alphabet, all 1- and 2-deviation mutants of a corpus, nesting families to depth 200, the parseable program spaces of C01/C02) through the tokenizer+parser and the playground entry in-process, and through the real oal-cli and oal-lsp",
+   text="Every text of the stated spaces (quick 2.5 M, thorough 0.68 G) is answered by oal_syntax::parse and oal_wasm::compile inside worker processes that attribute panics, aborts (stack overflow), out-of-memory and hangs to the text in flight; each must terminate with a tree or output, or with diagnostics. All short token sequences, the corpus, the nesting families and one representative of every distinct in-process outcome class additionally go through the real oal-cli (exit status 0 or 1, target written exactly on 0) and the real oal-lsp (full-text change + one request; the server must answer and stay alive).",
+   note="The accepted-but-crashing programs D3, D13, D14, D15 (see C01) are also texts, so they are known findings of this property for each of the three front ends. Bounds: nesting depth 200, 8 MiB stack, 10 s per text."),
  "C05": dict(engine="rewrite-bfs", design="§4 C05",
    technique="explicit-state breadth-first search over programs: a state is a program, a transition is one meaning-preserving rewrite at one site (8 rewrite kinds, every applicable site), states deduplicated by text; invariant checked on every state by running the real compiler and comparing the document with the seed's",
    text="From accepted fragment programs the search applies, at every site the abstract syntax offers, every rewrite the property lists (parenthesise, name a closed sub-expression, inline a declaration, abstract S[T] into a single-use function, alpha-rename a binder or qualifier with all its uses, swap adjacent statements, insert trivia at a token boundary, move every dependency-closed set of declarations into a new module imported qualified or unqualified) and chains them to depth 2 (thorough 3); every reachable state (quick 0.25 M) must be accepted by the real compiler and emit the seed's document up to the generated names of implicit components.",
@@ -40,6 +44,14 @@ CHECKS = {
    technique="exhaustive enumeration of all import graphs on <= N modules x use orders x spellings x duplicate / missing imports, through the real module::load with a recording in-memory loader whose parse / compile are the real ones; call trace compared with a plain graph-algorithm model",
    text="All directed graphs on up to 3 (thorough 4) modules, self loops included, with every order of the use statements, relative spellings of the same file, duplicate imports and missing targets are loaded by the real loader: the result class must be the one the graph model predicts (missing import reported as that import, cycle -> CycleDetected, otherwise success), every reachable module is loaded, parsed and compiled exactly once and nothing else is, each module is compiled after everything it imports, and result class and emitted document are invariant under use order and spelling.",
    note="The loader's collaborators (parse, compile) are the real functions; only file access is in memory. When both a missing import and a cycle are reachable either error class is accepted, as the property does not order them."),
+ "C11": dict(engine="tokspace", design="§4 C11",
+   technique="exhaustive enumeration of the C04 text spaces plus strings embedded in string / comment / annotation contexts; tokens, tree leaves and every reported span checked against an independent reference token splitter and hull computation",
+   text="For every text of the spaces (quick 3.0 M, thorough 0.69 G): token spans and lexical-error spans tile the text in order without gap or overlap on character boundaries; every token re-lexes alone to the same kind and its value is the slice minus its delimiters; the leaves of the tree are exactly the non-trivia tokens before the 'remaining input' point, once each, in increasing order; every node's span is the hull of its leaves; every span of a syntax error, compile error or external definition lies in its module on character boundaries (at most one past the end).",
+   note="The end-of-input span of direct production errors (E..E+1) is exempt from the character-boundary test past the end of the text; no front end surfaces it."),
+ "C12": dict(engine="tokspace", design="§4 C12",
+   technique="exhaustive enumeration of token sequences and mutants parsed twice (with and without the memo table) with structural comparison, plus read-count bound and affinity of reads(depth) over nesting families (hook H2 counters)",
+   text="Every token sequence of the spaces (quick 2.1 M, thorough 0.92 G) is parsed with Context::new and with .without_cache(): the structural dump (node kinds, token kinds, spans) and the error list must be identical; with the memo table the number of token reads must stay <= 64 per token, and for each of 25 nesting / chain families the reads must be affine in the depth over 1..200 (constant first differences), which excludes quadratic or exponential growth independently of constants.",
+   note="The uncached parse is exponential in nesting, so the equivalence half runs only on inputs whose static nesting weight keeps it feasible (stated in the evidence); workers run under RLIMIT_AS."),
  "C13": dict(engine="frontends", design="§4 C13",
    technique="exhaustive program x configuration matrix through the real oal-cli, oal_wasm::compile and the real oal-lsp; exit status, target file bytes, stderr and published diagnostics compared with a class table",
    text="For every failure phase (lexical, syntax, missing import, import cycle, unbound name, duplicate, kind mismatch, infinite type, bad recursion, invalid status, invalid annotation) and for success, every program of a hand-verified class table in every embedding (main, imported module, CRLF, multi-byte, diamond...) is run through the real CLI in every configuration (options / --conf / conf overridden, base none / valid / not YAML / not OpenAPI / missing, target absent / sentinel): exit 0 exactly when the complete document was written and equals the in-process Builder's; on failure exit 1, target byte-identical, stderr names the module and position; CLI success <=> playground success with the same document; the language server publishes >= 1 diagnostic exactly when the CLI fails.",
